@@ -276,6 +276,10 @@ def w_history(case, opts):
 # (setup, failing operation - caught by the script or ending the evaluation -, repair, reuse): the context that ran the failing operation
 # must afterwards answer `reuse` exactly like a twin context that never ran it (built-ins keep no state across a failed call)
 REUSE_SCENARIOS = [
+    # built-in method closures taken by the evaluation that then fails, called by a later evaluation
+    ("stored-method-closures-then-overflow", "var f = function () { return 7; }; var arr = [1, 2, 3]; var c1 = f.call, a1 = f.apply, b1 = f.bind, m1 = arr.map, j1 = arr.join, s1 = 'abc'.toUpperCase, t1 = /b/.test; function r() { return r() + 1; }", "c1 = f.call, a1 = f.apply, b1 = f.bind, m1 = arr.map, j1 = arr.join, s1 = 'abc'.toUpperCase, t1 = /b/.test, r()", "", "[c1(), a1(null, []), b1(null)(), m1(function (x) { return x * 2; }).join(), j1('-'), s1(), t1('abc')]"),
+    ("stored-method-closures-then-throw-in-nested-callbacks", "var f = function () { return 7; }; var arr = [1, 2, 3]; var c1 = f.call, a1 = f.apply, b1 = f.bind, m1 = arr.map, j1 = arr.join, s1 = 'abc'.toUpperCase, t1 = /b/.test; function r() { return r() + 1; }", "c1 = f.call, a1 = f.apply, b1 = f.bind, m1 = arr.map, j1 = arr.join, s1 = 'abc'.toUpperCase, t1 = /b/.test, [1].forEach(function () { [2].map(function () { null.x; }); })", "", "[c1(), a1(null, []), b1(null)(), m1(function (x) { return x * 2; }).join(), j1('-'), s1(), t1('abc')]"),
+    ("stored-method-closures-then-overflow-inside-callback", "var f = function () { return 7; }; var arr = [1, 2, 3]; var c1 = f.call, a1 = f.apply, b1 = f.bind, m1 = arr.map, j1 = arr.join, s1 = 'abc'.toUpperCase, t1 = /b/.test; function r() { return r() + 1; }", "c1 = f.call, a1 = f.apply, b1 = f.bind, m1 = arr.map, j1 = arr.join, s1 = 'abc'.toUpperCase, t1 = /b/.test, [1].map(function () { return [2].map(function () { return r(); }); })", "", "[c1(), a1(null, []), b1(null)(), m1(function (x) { return x * 2; }).join(), j1('-'), s1(), t1('abc')]"),
     ("stringify-cycle", "var a = {name: 'a'}; a.self = a;", "JSON.stringify(a)", "a.self = null;", "[JSON.stringify(a), JSON.stringify({wrap: [a], n: 1}), JSON.stringify([a, a])]"),
     ("stringify-getter-throws", "var g = {get p() { if (g.bad) { throw new Error('x'); } return 1; }, q: [1]}; g.bad = true;", "JSON.stringify({in: g})", "g.bad = false;", "[JSON.stringify(g), JSON.stringify({in: g})]"),
     ("parse-error", "var t = '{\"k\": [1, 2]}';", "JSON.parse(t + '}')", "", "[JSON.stringify(JSON.parse(t)), JSON.parse('[1]').length]"),
